@@ -73,8 +73,13 @@ def stable_key(err):
     head = re.sub(r"\(pc 0x.*", "", head)
     head = re.sub(r"0x[0-9a-f]+", "0x?", head).strip()
     fr = _frames(err)
+    if "stack-overflow" in head:
+        # where the stack ran out is accidental; the stable part is the cycle of llbuild functions that recurses
+        cnt = collections.Counter(fr)
+        cyc = sorted(set(f for f in fr if cnt[f] >= 3 and f.startswith("llbuild::")))
+        return "crash", "crash: " + head + " @ recursion through " + " + ".join(cyc[:6])
     seen, top = set(), []
-    for f in fr:                      # recursion repeats frames: keep the first three distinct ones
+    for f in fr:
         if f not in seen:
             seen.add(f)
             top.append(f)
